@@ -23,18 +23,18 @@ func PlanFor(prop, tier string) (*Plan, error) {
 		p.Monitors = func() []Monitor { return []Monitor{NewC02()} }
 		p.Rule = "same exploration; every transition checks zero-sum, supply, deltas == emitted bank transfers, and the op's exact due (fee + reservation, settlement allocations/refunds/unsold/proceeds, instalments); non-trivial = distinct bids / modifications / settlements with a winner / instalment releases"
 	case "C03":
-		p.Scenarios = append(bookScenarios(tier), S2b(tier, 2, false), S4w("quick"), S2o(tier), S2m(tier))
+		p.Scenarios = append(bookScenarios(tier), S2b(tier, 2, false), S4w("quick"), S2o(tier), S2m(tier), S11(tier))
 		p.Monitors = func() []Monitor { return []Monitor{NewC03()} }
 		p.Rule = "order-book enumeration: every book of <=N real PlaceBid calls (bidder x kind x price x amount, incl. a price level that turns small worth-bids into zero coins) under several cap/supply assignments, plus every book the modification scenario reaches; for each distinct book the MatchingInfo of the real CalculateBatchAllocation and, at the settlement block, the delivered coins are compared with the definition (linear scan over all recorded prices, exact rationals); non-trivial = distinct order books (digest of bids, caps, supply)"
 	case "C04":
-		p.Scenarios = append(bookScenarios(tier), S1b(tier, "3", true), S1b(tier, "0.5", false), S2b(tier, 2, false), S2o(tier), S2m(tier))
+		p.Scenarios = append(bookScenarios(tier), S1b(tier, "3", true), S1b(tier, "0.5", false), S2b(tier, 2, false), S2o(tier), S2m(tier), S11(tier))
 		if !quick {
 			p.Scenarios = append(p.Scenarios, S1b(tier, "0.333333333333333333", true), S2b(tier, 0, true), S2a(tier, true))
 		}
 		p.Monitors = func() []Monitor { return []Monitor{NewC04()} }
 		p.Rule = "same enumeration; at every settlement each bidder's payment (reservation minus refund read off the bank transfers) is bounded by P*q <= paid < P*q + #matched bids and by the reservation, losers get everything back, P* never exceeds a matched bid's limit; every accepted fixed-price bid is checked against its rounding bound; non-trivial = distinct (P*, quantity, paid, matched bids, reserved) winner cases and distinct fixed bids"
 	case "C05":
-		p.Scenarios = append(bookScenarios(tier), S1b(tier, "3", true), S1b(tier, "0.5", false), S2b(tier, 0, true), S3(tier, false), S3x(tier), S3e(tier), S2o(tier), S2m(tier))
+		p.Scenarios = append(bookScenarios(tier), S1b(tier, "3", true), S1b(tier, "0.5", false), S2b(tier, 0, true), S3(tier, false), S3x(tier), S3e(tier), S2o(tier), S2m(tier), S11(tier), S12(tier))
 		if !quick {
 			p.Scenarios = append(p.Scenarios, S1a(tier, true), S2a(tier, false), S2b(tier, 2, false))
 		}
@@ -48,7 +48,7 @@ func PlanFor(prop, tier string) (*Plan, error) {
 		p.Monitors = func() []Monitor { return []Monitor{NewC06()} }
 		p.Rule = "every sequence of fixed-price bids (both denominations, allow-listed and outsider accounts, amounts that exactly exhaust / exceed the remainder or convert to zero) within the budget; each decision is compared in both directions with the reference predicate and the published remainder with offered minus accepted in every state; non-trivial = distinct (reason, bidder, denom, amount, price, remainder) decisions"
 	case "C08":
-		p.Scenarios = []*Scenario{S1a(tier, true), S2a(tier, false), S3(tier, false), S2c(tier, "0.5", 0)}
+		p.Scenarios = []*Scenario{S1a(tier, true), S2a(tier, false), S3(tier, false), S2c(tier, "0.5", 0), S12(tier)}
 		for _, sc := range p.Scenarios {
 			sc.withRejectsTerminal()
 		}
@@ -104,7 +104,7 @@ func PlanFor(prop, tier string) (*Plan, error) {
 		p.Monitors = func() []Monitor { return []Monitor{NewC18()} }
 		p.Rule = "in every state of the lifecycle and multi-auction scenarios below the stated budgets, every message type is delivered with a field alphabet that replaces one field at a time (thorough: every pair of fields) by invalid and boundary values (bad address, zero/negative price, zero/negative amount, invalid/equal/third denom, end<=start, end<now, 100/101 instalments, weights != 1, unordered or too-early releases, rounds 30/31, rate 0, unknown auction/bid id, wrong kind, wrong signer/authority, insufficient funds); each decision is compared in both directions with the reference, and every rejection with an unchanged store dump, balances and community pool; non-trivial = distinct (message kind, reference reason, probe, field values) decisions"
 	case "C19":
-		p.Scenarios = []*Scenario{S3(tier, false).withRejectsTerminal(), S3x(tier).withEntryIDMismatch(), S3e(tier)}
+		p.Scenarios = []*Scenario{S3(tier, false).withRejectsTerminal(), S3x(tier).withEntryIDMismatch(), S3e(tier), S12(tier)}
 		if !quick {
 			p.Scenarios = append(p.Scenarios, S3(tier, true).withRejectsTerminal())
 		}
@@ -115,7 +115,7 @@ func PlanFor(prop, tier string) (*Plan, error) {
 		p.Post = c19FailedCreations
 		p.Rule = "histories over 2-3 concurrent auctions sharing auctioneer, bidders and (crossed) denominations, failed operations included: around every transition the raw records, bids, allow-list, instalments, counters and three escrow balances of every auction that is neither the target nor due for a lifecycle step must be byte-identical; agreed terms of every auction are compared before/after every transition; ids follow the counters; a table shared by the whole run maps (projection of X, actor balances, params, time, op) to the outcome and flags two different outcomes under one key; plus every direct keeper creation failing at a listener veto / bank transfer with its writes kept or rolled back, followed by another creation (ids, record identity, new escrow); non-trivial = distinct frame cases and distinct table keys seen with different contents of the other auctions"
 	case "C16":
-		p.Scenarios = []*Scenario{S2b(tier, 2, false).tagged("noqueries"), S1b(tier, "3", true), S3(tier, false), S5(tier, []string{"0.5", "0.5"}, "n2-halves"), S2c(tier, "0.25", 1).tagged("noqueries"), S2b(tier, 0, true)}
+		p.Scenarios = []*Scenario{S2b(tier, 2, false).tagged("noqueries"), S1b(tier, "3", true), S3(tier, false), S5(tier, []string{"0.5", "0.5"}, "n2-halves"), S2c(tier, "0.25", 1).tagged("noqueries"), S2b(tier, 0, true), S11(tier), S12(tier)}
 		if !quick {
 			p.Scenarios = append(p.Scenarios, S2b(tier, 1, true), S2a(tier, false), S3x(tier), S2b(tier, 2, true))
 		}
@@ -129,7 +129,7 @@ func PlanFor(prop, tier string) (*Plan, error) {
 			S1a(tier, true).withBudget(lite, "-lite").withEntryIDMismatch(),
 			S3e(tier).withBudget(Budget{"bid": 3, "block": 3}, "-lite"),
 			S2c(tier, "0.5", 0).withBudget(Budget{"bid": 2, "mod": 0, "update": 0, "block": 2, "tick": 2}, "-lite"), // extension period 0 in the params
-			S2b(tier, 2, false).withBudget(Budget{"bid": 2, "mod": 1, "update": 0, "block": 3}, "-lite"), // a matched bid modified during an extension round, then exported
+			S2b(tier, 2, false).withBudget(Budget{"bid": 2, "mod": 1, "update": 0, "block": 3}, "-lite"),            // a matched bid modified during an extension round, then exported
 		}
 		if !quick {
 			p.Scenarios = []*Scenario{S3(tier, false), S2e(tier), S1a(tier, true), S2a(tier, false), S3x(tier), S3e(tier)}
@@ -189,7 +189,7 @@ func PlanFor(prop, tier string) (*Plan, error) {
 
 // moneyScenarios is the scenario set of the balance properties (C01, C02, C04, C05).
 func moneyScenarios(tier string) []*Scenario {
-	out := []*Scenario{S1a(tier, true), S1b(tier, "0.5", false), S1b(tier, "3", true), S2a(tier, false), S2b(tier, 0, true), S2b(tier, 2, false), S2o(tier), S2m(tier)}
+	out := []*Scenario{S1a(tier, true), S1b(tier, "0.5", false), S1b(tier, "3", true), S2a(tier, false), S2b(tier, 0, true), S2b(tier, 2, false), S2o(tier), S2m(tier), S11(tier), S12(tier)}
 	if tier == "thorough" {
 		out = append(out, S1a(tier, false), S1b(tier, "0.333333333333333333", true), S2a(tier, true), S2b(tier, 1, true), S1f(tier))
 	}
